@@ -99,7 +99,7 @@ mut("M33-swap-four-limbs", "field/fe.go",
 # --- C11
 mut("M34-point-add-no-temp", "edwards25519.go",
     "func (v *Point) Add(p, q *Point) *Point {\n\tcheckInitialized(p, q)\n\tqCached := new(projCached).FromP3(q)\n\tresult := new(projP1xP1).Add(p, qCached)\n\treturn v.fromP1xP1(result)\n}",
-    "func (v *Point) Add(p, q *Point) *Point {\n\tcheckInitialized(p, q)\n\tqCached := new(projCached).FromP3(q)\n\tv.Set(p)\n\tresult := new(projP1xP1).Add(v, qCached)\n\treturn v.fromP1xP1(result)\n}", "",
+    "func (v *Point) Add(p, q *Point) *Point {\n\tcheckInitialized(p, q)\n\tqCached := new(projCached).FromP3(q)\n\tv.Set(p)\n\tresult := new(projP1xP1).Add(v, qCached)\n\treturn v.fromP1xP1(result)\n}", "C02 C11 C12",
     "equivalent (qCached is computed before v is written): expected silent")
 # --- C13
 mut("M36-isoncurve-drop-xy-zt", "extra.go",
